@@ -2,7 +2,7 @@ import MgpuProofs.C10Buddy
 /-!
 # C10 (extension) — the buddy allocator `deviceBuddyMemoryState`: property theorems
 
-Model: `MgpuModel/C10Buddy.lean` (the code as it is, defects included; tied to the real driver by the
+Model: `MgpuModel/C10Buddy.lean` (the code after the repair of `allocateMultiplePages`; tied to the real driver by the
 `c10 buddy …` case lines of `harness/c10_deep.go`). A device of `4096 * 2^F` bytes at any address `base`.
 -/
 namespace C10.Buddy
@@ -55,44 +55,51 @@ theorem buddy_alloc_free_blocks (F base : Nat) (ops : List Op) (h : ops.all Op.i
 example : (runOut (init 0x5000 (4096 * 2 ^ 3)) [.am 3, .pop 2]).2.free = [[], [], [0xb000], []] := by
   decide +kernel
 
-/-- The full statement, frees included: after any legal history (pages are given back only while live, each
-once) no live page lies inside a free block, and the free blocks are pairwise disjoint. FALSE for the code. -/
-def buddy_disjoint_full : Prop :=
+/-- The full statement for the code BEFORE the repair of `allocateMultiplePages` (`runLiveOld`: the parent's
+merge bit toggled only `if i == level && i > 0`): after any legal history (pages are given back only while live,
+each once) no live page lies inside a free block, and the free blocks are pairwise disjoint. It was FALSE. -/
+def buddy_disjoint_full_before_fix : Prop :=
   ∀ (F base : Nat) (ops : List Op),
-    (runLive (init base (4096 * 2 ^ F)) [] ops).legal = true →
-    NoLiveInFree (runLive (init base (4096 * 2 ^ F)) [] ops).st (runLive (init base (4096 * 2 ^ F)) [] ops).live ∧
-    FreeDisjoint (runLive (init base (4096 * 2 ^ F)) [] ops).st
+    (runLiveOld (init base (4096 * 2 ^ F)) [] ops).legal = true →
+    NoLiveInFree (runLiveOld (init base (4096 * 2 ^ F)) [] ops).st (runLiveOld (init base (4096 * 2 ^ F)) [] ops).live ∧
+    FreeDisjoint (runLiveOld (init base (4096 * 2 ^ F)) [] ops).st
 
-/-- Witness (reproduced on the real driver, devices of 4, 8, 16, 64 pages): three 1-page allocations, then
-the third page is freed — `freeBlock` merges up to level 0 and puts the WHOLE device on the free list while
-two pages are live. -/
-theorem buddy_disjoint_full_refuted : ¬ buddy_disjoint_full := by
+/-- Witness (was reproduced on the real driver, devices of 4, 8, 16, 64 pages): three 1-page allocations, then
+the third page is freed — the third allocation took the 2-page block off its free list without toggling the
+merge bit of its parent, so `freeBlock` merged up to level 0 and put the WHOLE device on the free list while
+two pages were live. -/
+theorem buddy_disjoint_full_before_fix_refuted : ¬ buddy_disjoint_full_before_fix := by
   intro h
   have := h 2 0x5000 [.pop 1, .pop 1, .pop 1, .add [0x7000]]
   revert this
   decide +kernel
 
-/-- the state after the witness history: the whole 4-page device is one free block, 0x5000 and 0x6000 are live -/
-example : (runLive (init 0x5000 (4096 * 2 ^ 2)) [] [.pop 1, .pop 1, .pop 1, .add [0x7000]]).live = [0x5000, 0x6000] ∧
-    (runLive (init 0x5000 (4096 * 2 ^ 2)) [] [.pop 1, .pop 1, .pop 1, .add [0x7000]]).st.free = [[0x5000], [], []] := by
+/-- the state after the witness history, old and repaired code: before the repair the whole 4-page device was
+one free block while 0x5000 and 0x6000 were live; now the freed page merges with its buddy only -/
+example : (runLiveOld (init 0x5000 (4096 * 2 ^ 2)) [] [.pop 1, .pop 1, .pop 1, .add [0x7000]]).live = [0x5000, 0x6000] ∧
+    (runLiveOld (init 0x5000 (4096 * 2 ^ 2)) [] [.pop 1, .pop 1, .pop 1, .add [0x7000]]).st.free = [[0x5000], [], []] ∧
+    (runLive (init 0x5000 (4096 * 2 ^ 2)) [] [.pop 1, .pop 1, .pop 1, .add [0x7000]]).st.free = [[], [0x7000], []] := by
   decide +kernel
 
-/-- Second witness (reproduced on the real driver, 4–64 pages): alloc, alloc, alloc, free the 1st, free the
-3rd — the legal history ends with OVERLAPPING free blocks (the whole device at level 0 and page `base` again
-at the finest level), and the live page 0x6000 inside a free block. -/
-theorem buddy_free_blocks_overlap_witness :
-    (runLive (init 0x5000 (4096 * 2 ^ 3)) [] [.pop 1, .pop 1, .pop 1, .add [0x5000], .add [0x7000]]).legal = true ∧
-    ¬ FreeDisjoint (runLive (init 0x5000 (4096 * 2 ^ 3)) [] [.pop 1, .pop 1, .pop 1, .add [0x5000], .add [0x7000]]).st ∧
-    ¬ NoLiveInFree (runLive (init 0x5000 (4096 * 2 ^ 3)) [] [.pop 1, .pop 1, .pop 1, .add [0x5000], .add [0x7000]]).st
-        (runLive (init 0x5000 (4096 * 2 ^ 3)) [] [.pop 1, .pop 1, .pop 1, .add [0x5000], .add [0x7000]]).live := by
+/-- Second witness for the old code (was reproduced on the real driver, 4–64 pages): alloc, alloc, alloc, free the
+1st, free the 3rd — the legal history ended with OVERLAPPING free blocks (the whole device at level 0 and page
+`base` again at the finest level), and the live page 0x6000 inside a free block. -/
+theorem buddy_free_blocks_overlap_before_fix_witness :
+    (runLiveOld (init 0x5000 (4096 * 2 ^ 3)) [] [.pop 1, .pop 1, .pop 1, .add [0x5000], .add [0x7000]]).legal = true ∧
+    ¬ FreeDisjoint (runLiveOld (init 0x5000 (4096 * 2 ^ 3)) [] [.pop 1, .pop 1, .pop 1, .add [0x5000], .add [0x7000]]).st ∧
+    ¬ NoLiveInFree (runLiveOld (init 0x5000 (4096 * 2 ^ 3)) [] [.pop 1, .pop 1, .pop 1, .add [0x5000], .add [0x7000]]).st
+        (runLiveOld (init 0x5000 (4096 * 2 ^ 3)) [] [.pop 1, .pop 1, .pop 1, .add [0x5000], .add [0x7000]]).live := by
   decide +kernel
 
-example : (runLive (init 0x5000 (4096 * 2 ^ 3)) [] [.pop 1, .pop 1, .pop 1, .add [0x5000], .add [0x7000]]).st.free =
-    [[0x5000], [], [], [0x5000]] := by
+example : (runLiveOld (init 0x5000 (4096 * 2 ^ 3)) [] [.pop 1, .pop 1, .pop 1, .add [0x5000], .add [0x7000]]).st.free =
+    [[0x5000], [], [], [0x5000]] ∧
+    (runLive (init 0x5000 (4096 * 2 ^ 3)) [] [.pop 1, .pop 1, .pop 1, .add [0x5000], .add [0x7000]]).st.free =
+    [[], [0x9000], [0x7000], [0x5000]] := by
   decide +kernel
 
-/-- **The strongest true part of `buddy_disjoint_full`**: its conclusion holds for every allocation-only
-history (any `F`, `base`, requests). The defects need an `addSinglePAddr` (freeBlock's merge bookkeeping). -/
+--FULL--
+
+/-- the allocation-only instance (proved before the repair; it needs no `addSinglePAddr`) -/
 theorem buddy_disjoint_partial (F base : Nat) (ops : List Op) (h : ops.all Op.isAlloc = true) :
     (runLive (init base (4096 * 2 ^ F)) [] ops).legal = true ∧
     NoLiveInFree (runLive (init base (4096 * 2 ^ F)) [] ops).st (runLive (init base (4096 * 2 ^ F)) [] ops).live ∧
